@@ -395,11 +395,13 @@ class Response:
             if self.is_chunked():
                 chunk_size = "%X\r\n" % nbytes
                 self.sock.sendall(chunk_size.encode('utf-8'))
-            self.sock.sendfile(respiter.filelike, offset=offset, count=nbytes)
+            sent = self.sock.sendfile(respiter.filelike, offset=offset,
+                                      count=nbytes)
             if self.is_chunked():
                 self.sock.sendall(b"\r\n")
             # these body bytes count like those that go through write()
-            self.sent += nbytes
+            # (the file may hold less than the declared length)
+            self.sent += nbytes if sent is None else sent
 
         os.lseek(fileno, offset, os.SEEK_SET)
 
